@@ -50,7 +50,8 @@ def _expand(payload, sub):
         second = {'step': rng.choice(['dump_to_path', 'dump_to_zip']), 'format': other}
         second['out'] = g.fresh('out2') if second['step'] == 'dump_to_path' else g.fresh('zip2') + '.zip'
         sc['steps'].insert(rng.randrange(npre, len(sc['steps']) + 1), second)
-    return {'tables': sc['tables'], 'source_kinds': sc.get('source_kinds'), 'prefix': sc['steps'][:npre], 'suffix': sc['steps'][npre:], 'observer': obs, 'gen_stats': stats}
+    return {'tables': sc['tables'], 'source_kinds': sc.get('source_kinds'), 'prefix': sc['steps'][:npre], 'suffix': sc['steps'][npre:], 'observer': obs, 'gen_stats': stats,
+            'fail_at': rng.choice([0, 1, 3]) if obs['step'] == 'finalizer' and rng.random() < 0.6 else None}
 
 
 def _run(payload, sub):
@@ -81,24 +82,44 @@ def _run(payload, sub):
             real_tab = pm.tabulate
 
             def tab(rows, headers=(), **kw):
-                tabs.append([r[0] for r in rows])
+                tabs.append([list(r) for r in rows])
                 return real_tab(rows, headers=headers, **kw)
             pm.tabulate = tab
             heads = []
             links.append(DF.printer(num_rows=o.get('num_rows', 10), resources=o.get('resources'),
                                     header_print=lambda name, kw: heads.append(name), table_print=lambda data, kw: None))
-            rec['printer'] = {'heads': heads, 'tabs': tabs}
+            rec['printer'] = {'heads': heads, 'tabs': tabs, 'headers': None}
         else:
             links.extend(ST.build(o, env))
     if payload['with_suffix']:
         for sp in sc['suffix']:
             links.extend(ST.build(sp, env))
+    if payload.get('fail_at') is not None and payload['with_observer']:
+        k_fail = payload['fail_at']
+        n_seen = {'n': 0}
+
+        def tripwire(row):
+            if n_seen['n'] == k_fail:
+                raise RuntimeError('dfsim: downstream step fails at row %d' % k_fail)
+            n_seen['n'] += 1
+        links.append(tripwire)
+        try:
+            DF.Flow(*links).process()
+            return {'failed': False, 'rec': rec}
+        except Exception:  # noqa
+            import gc
+            gc.collect()
+            return {'failed': True, 'rec': rec}
     if payload.get('raw'):
         # the stream exactly as it is at this position (no final validation cast)
         ds = DF.Flow(*links).datastream()
         rows = [list(r) for r in ds.res_iter]
         from .c01 import _cast
+        def cell(v):
+            v = str(v)
+            return v[:100] + ' ...' if len(v) > 100 else v
         return {'rows': jsonable(rows), 'dp': jsonable(ds.dp.descriptor), 'stats': {}, 'rec': rec,
+                'rows_str': [[{k: cell(v) for k, v in row.items()} for row in res] for res in rows],
                 'cast_fixed': _cast(ds.dp.descriptor, rows) == jsonable(rows)}
     rows, dp, stats = DF.Flow(*links).results()
     return {'rows': jsonable(rows), 'dp': jsonable(dp.descriptor), 'stats': jsonable(stats), 'rec': rec}
@@ -152,7 +173,7 @@ class C05(Prop):
     ASSUMPTIONS = ['schemas are compared as (field names, types, order, primary key): serialisation hints that file dumpers add by design (format, decimalChar, ...) are not part of the statement',
                    'dumped csv/json files are decoded with the stdlib only and compared by resource list, row count and provenance-id sequence (typed round-trip is C03)']
     REAL_VS_STUB = {'real': ['all dataflows code'], 'stub': ['printer: header_print/table_print callbacks and a recording wrapper around the module-global tabulate']}
-    PROBES = ['suffix-deletes-resource', 'suffix-filters-rows', 'suffix-joins', 'suffix-concatenates', 'observer-first', 'observer-last', 'empty-resource-at-observer', 'printer-with-selection', 'second-dumper-downstream', 'suffix-stops-pulling-early'] + ['obs:' + o for o in OBS_KINDS]
+    PROBES = ['suffix-deletes-resource', 'suffix-filters-rows', 'suffix-joins', 'suffix-concatenates', 'observer-first', 'observer-last', 'empty-resource-at-observer', 'printer-with-selection', 'second-dumper-downstream', 'suffix-stops-pulling-early', 'run-fails-downstream-of-finalizer'] + ['obs:' + o for o in OBS_KINDS]
     TIERS = {'quick': dict(runs=900, wall=100, run_wall=300),
              'thorough': dict(runs=25000, wall=1700, run_wall=600)}
     SHRINK_FROZEN = ('fields', 'gen_stats')
@@ -279,11 +300,21 @@ class C05(Prop):
                 ctx.probe('printer-with-selection')
             if pr['heads'] != want_names:
                 ctx.violation('completeness:resources', k, 'printer announced %r, the stream at its position has %r; %s' % (pr['heads'], want_names, desc), observer=k)
+            a_rows = {nm: rows for nm, rows in zip([r['name'] for r in A['dp']['resources']], A['rows_str'])}
+            a_fields = {r['name']: [f['name'] for f in r['schema']['fields']] for r in A['dp']['resources']}
             for nm, tab, want in zip(want_names, pr['tabs'], want_ids):
-                last = [x for x in tab if isinstance(x, int)]
+                last = [x[0] for x in tab if x and isinstance(x[0], int)]
                 lastidx = last[-1] if last else 0
                 if lastidx != len(want):
                     ctx.violation('completeness:rows', k, 'printer reported rows up to #%d of %r, the stream at its position has %d; %s' % (lastidx, nm, len(want), desc), observer=k)
+                # what it reports about a row is that row as it was at the printer's position
+                for prow in tab:
+                    if not prow or not isinstance(prow[0], int):
+                        continue
+                    src = a_rows[nm][prow[0] - 1]
+                    exp = [src.get(f) for f in a_fields[nm]]
+                    if list(prow[1:]) != exp:
+                        ctx.violation('completeness:rows', 'printer-content', 'printer shows row #%d of %r as %r, at its position that row was %r; %s' % (prow[0], nm, prow[1:], exp, desc), observer=k)
             if len(pr['tabs']) != len(want_names):
                 ctx.violation('completeness:resources', k, 'printer printed %d tables for %d resources; %s' % (len(pr['tabs']), len(want_names), desc), observer=k)
         elif k == 'finalizer':
@@ -300,6 +331,19 @@ class C05(Prop):
         discarding = [sp['step'] for sp in sc['suffix'] if ST.TAGS.get(sp['step'], set()) & {'discard-rows', 'discard-columns', 'discard-resources'}]
         if discarding:
             ctx.nt(k, [sp['step'] for sp in sc['suffix']], [sp['step'] for sp in sc['prefix']])
+        total_rows = sum(len(x) for x in want_ids)
+        if k == 'finalizer' and sc.get('fail_at') is not None and not any(sp['step'] == 'truncate' for sp in sc['suffix']):
+            # a run that fails downstream of the finalizer, before the last row has passed it: it must not fire
+            dF = os.path.join(ctx.scratch, 'F')
+            os.makedirs(dF, exist_ok=True)
+            os.chdir(dF)
+            Fr = ctx.subrun(_run, {'sc': sc, 'with_observer': True, 'with_suffix': True, 'fail_at': sc['fail_at']})
+            if Fr['status'] == 'ok' and Fr['value'].get('failed'):
+                ctx.probe('run-fails-downstream-of-finalizer')
+                fired = Fr['value']['rec'].get('finalizer') or []
+                if fired and fired[0] < total_rows:
+                    ctx.violation('finalizer:early', 'on-failure', 'the run failed downstream after %d rows; the finalizer fired although only %d of %d rows had passed it; %s' % (
+                        sc['fail_at'], fired[0], total_rows, desc), observer=k)
         ctx.sample = {'sources': [len(t['rows']) for t in sc['tables']], 'prefix': sc['prefix'], 'observer': obs, 'suffix': sc['suffix']}
         if pending:
             c, k_, m, d = pending[0]
